@@ -45,7 +45,7 @@ def run(ctx):
         if ctx.quick and hard and st not in ('sorted', 'bucketmax'):
           continue
         models.append(('Cache[%s,lag=%d,hard=%d]' % (st, lag, hard),
-                       cachesys.model_constants(st, hard=hard, lag=lag, stores=ctx.pick(4, 5), drains=ctx.pick(3, 4),
+                       cachesys.model_constants(st, hard=hard, lag=lag, stores=ctx.pick(4, 5), drains=3,
                                                 metrics=ctx.pick(2, 3), tss=2, maxnow=5),
                        cachecheck.INV_C17, [], 'Spec'))
       models.append(('Cache-live[%s,lag=%d]' % (st, lag),
